@@ -8,7 +8,7 @@ from props.c03 import gen_slice, py_key
 RULE = ("histories of 15 (thorough 40) API operations over a pool of up to 5 (8) tensors in any format mix (2..3 modes): creation, "
         "derivation (slicing, transpose, clone, + - * scalar ops, flip/cat/cumsum, copying round functions, decompress/tt()), in-place "
         "methods (round_tt, round_tucker, round, orthogonalize, assignment, set_factors, as_leaf), pure functions (dot, norm, sum, "
-        "mean, var, sobol/dgsm/mean with caller-owned marginal arrays). Around every call: for every live tensor and argument array "
+        "mean, var, sobol/dgsm/mean/anova_decomposition/truncate_anova with caller-owned marginal arrays, the list often carrying None placeholders that must still be None (the same objects) afterwards). Around every call: for every live tensor and argument array "
         "the byte content of every reachable storage is hashed and the dense value, format and ranks are recorded; after the call "
         "every object other than the receiver of an in-place method must be bit-identical, and the set of written storages must "
         "satisfy the model's Safe predicate (written ⊆ fresh ∪ reachable only from the receiver). distinct = operation sequence + formats")
@@ -92,6 +92,9 @@ def run_case(ctx, case):
         a, b = pool[ia], pool[ib]
         margs = [torch.tensor([rng.uniform(0.5, 2) for _ in range(s)], dtype=torch.float64) for s in shape]
         margs0 = [m.clone() for m in margs]
+        # the list handed over: often with None placeholders ("uniform along this mode"), which must still be None afterwards
+        margl = [None if rng.random() < 0.35 else m for m in margs] if rng.random() < 0.6 else list(margs)
+        margl0 = list(margl)
         before = [snapshot(t) for t in pool]
         st_before = {}
         owner = {}
@@ -142,11 +145,11 @@ def run_case(ctx, case):
             elif op == "relerr":
                 tn.relative_error(a, b)
             elif op == "sobol":
-                tn.sobol(a, tn.only(tn.symbols(N)[0]), marginals=margs)
+                tn.sobol(a, tn.only(tn.symbols(N)[0]), marginals=margl)
             elif op == "mean_marg":
                 tn.mean(a, marginals=margs)
             elif op == "dgsm":
-                tn.dgsm(a, bounds=None, marginals=margs) if False else tn.sobol(a, tn.symbols(N)[-1], marginals=margs)
+                tn.dgsm(a, bounds=None, marginals=margs) if False else tn.sobol(a, tn.symbols(N)[-1], marginals=margl)
             elif op == "mask_small":
                 # a mask shorter than the tensor along every mode (legal: trailing slices are matched to the mask's last one)
                 mk = tn.Tensor(torch.tensor(np.array([rng.randint(0, 1) for _ in range(2 ** N)], dtype=np.float64).reshape([2] * N)))
@@ -169,13 +172,13 @@ def run_case(ctx, case):
             elif op == "unsqueeze":
                 new = tn.unsqueeze(a, rng.randint(0, N))
             elif op == "anova":
-                tn.anova_decomposition(a, marginals=margs if rng.random() < 0.5 else None)
+                tn.anova_decomposition(a, marginals=margl if rng.random() < 0.5 else None)
             elif op == "undo_anova":
                 aa = tn.anova_decomposition(a)
                 extra.append((aa, snapshot(aa), "the ANOVA tensor passed to undo_anova_decomposition"))
                 tn.undo_anova_decomposition(aa)
             elif op == "truncate_anova":
-                tn.truncate_anova(a, tn.only(tn.symbols(N)[0]), keepdim=rng.random() < 0.5)
+                tn.truncate_anova(a, tn.only(tn.symbols(N)[0]), keepdim=rng.random() < 0.5, marginals=margl if rng.random() < 0.5 else None)
             elif op == "unbind":
                 tn.unbind(a, rng.randrange(N))
             elif op == "accepted":
@@ -263,6 +266,11 @@ def run_case(ctx, case):
                                                                        obj if not hasattr(obj, "tolist") else obj.tolist()), case,
                            cls={"op": op, "predicate": "argument array modified"})
                 return
+        if len(margl) != len(margl0) or any(x is not y for x, y in zip(margl, margl0)):
+            ctx.oracle("step %d (%s): the caller's marginals list was modified: %s -> %s" % (
+                step, op, ["None" if x is None else "vector" for x in margl0], ["None" if x is None else "vector" for x in margl]), case,
+                cls={"op": op, "predicate": "argument array modified"})
+            return
         for m, m0 in zip(margs, margs0):
             if not torch.equal(m, m0):
                 ctx.oracle("step %d (%s): a caller-owned marginal array was modified" % (step, op), case,
